@@ -674,6 +674,7 @@ int main(int argc, char** argv) {
     set_error_logger(NULL);
     Out out;
     out.open(argv[3]);
+    char buf0[400];
     if (argc > 5) {
         std::string k, p;
         if (load_replay(argv[5], k, p)) run_case(out, k, p);
@@ -681,6 +682,57 @@ int main(int argc, char** argv) {
         return 0;
     }
     for (auto& c : load_corpus(argc > 4 ? argv[4] : NULL)) run_case(out, c.first, c.second);
+    // explicit repetitions OFF the precision grid (the layout generator is on the grid): every copy must re-load at its position
+    // rounded to the grid - the writer has to round positions, not successive differences, or the errors add up
+    for (int kind = 0; kind < 3; kind++)
+        for (int flags = 0; flags < 2; flags++) {
+            static const double STEPS[4] = {0.0004, 0.0026, 0.00047, 0.00123};  // multiples never land on a half-way point
+            double sx = STEPS[(kind + flags) % 4], sy = STEPS[(kind + flags + 1) % 4];
+            int n = 6 + 2 * kind + flags;
+            Library lib = {};
+            lib.init("L", 1e-6, 1e-9);
+            Cell* c = (Cell*)allocate_clear(sizeof(Cell));
+            c->name = copy_string("A", NULL);
+            lib.cell_array.append(c);
+            Polygon* p = (Polygon*)allocate_clear(sizeof(Polygon));
+            p->point_array.append(Vec2{0, 0});
+            p->point_array.append(Vec2{10, 0});
+            p->point_array.append(Vec2{3, 7});
+            p->tag = make_tag(1, 2);
+            if (kind == 0) {
+                p->repetition.type = RepetitionType::Explicit;
+                for (int i = 1; i <= n; i++) p->repetition.offsets.append(Vec2{sx * i, sy * i});
+            } else {
+                p->repetition.type = kind == 1 ? RepetitionType::ExplicitX : RepetitionType::ExplicitY;
+                for (int i = 1; i <= n; i++) p->repetition.coords.append(sx * i);
+            }
+            c->polygon_array.append(p);
+            std::string path = g_outdir + "/probe.oas";
+            lib.write_oas(path.c_str(), 0, 0, flags ? OASIS_CONFIG_DETECT_RECTANGLES : 0);
+            ErrorCode e = ErrorCode::NoError;
+            Library b = read_oas(path.c_str(), 0, 1e-2, &e);
+            std::string verdict = "ok";
+            if (e != ErrorCode::NoError || b.cell_array.count != 1 || b.cell_array[0]->polygon_array.count != 1) verdict = "FAIL oas-roundtrip the probe file does not load back";
+            else {
+                Array<Vec2> o = {}, w = {};
+                b.cell_array[0]->polygon_array[0]->repetition.get_offsets(o);
+                p->repetition.get_offsets(w);
+                if (o.count != w.count) verdict = "FAIL oasis_write_repetition:explicit-rounded-differences number of copies changed";
+                for (uint64_t i = 0; i < o.count && verdict == "ok"; i++)
+                    if (llround(o[i].x * 1e3) != llround(w[i].x * 1e3) || llround(o[i].y * 1e3) != llround(w[i].y * 1e3)) {
+                        snprintf(buf0, sizeof buf0, "copy %d of an off-grid explicit repetition re-loads at (%lld, %lld) grid steps, its rounded position is (%lld, %lld)", (int)i,
+                                 (long long)llround(o[i].x * 1e3), (long long)llround(o[i].y * 1e3), (long long)llround(w[i].x * 1e3), (long long)llround(w[i].y * 1e3));
+                        verdict = std::string("FAIL oasis_write_repetition:explicit-rounded-differences ") + buf0;
+                    }
+                o.clear();
+                w.clear();
+            }
+            std::string id = out.add("probe", "explicit-offgrid " + std::to_string(kind) + " " + std::to_string(flags));
+            out.I(id, "-");
+            out.P(id, verdict);
+            b.free_all();
+            lib.free_all();
+        }
     // common.hpp's Rng(seed) starts at seed * golden-ratio increment: the streams of seeds s and s+1 are the same
     // sequence shifted by one draw.  Re-seed from the first (mixed) output so that different seeds give unrelated runs.
     Rng g0(seed);
